@@ -341,6 +341,82 @@ def sm_field_assign_blocks(f, field, pred=None, T=None):
     return out
 
 
+SELECTING = ("filter", "filter_map", "take", "take_while", "skip", "skip_while", "step_by", "find", "find_map", "nth", "last", "first", "next", "min", "max", "min_by", "max_by", "min_by_key", "max_by_key", "dedup", "dedup_by_key", "truncate", "pop")
+
+
+def rule_proposals_roundtrip(ctx):
+    R = "C03.10"
+    ctx.rule(R, "the cached payloads survive a restart: the backup's `proposals` are built from every entry of block_proposal_cache (no selecting / truncating step), and StateMachine::start restores the cache from them by merging per block number (entry(number).or_default().insert(hash, payload)) - an overwriting construction (insert / collect of (number, map) pairs) keeps one payload per number and can drop the one the replica voted for")
+    # backup side
+    bf = None
+    aggr = None
+    for f in bft_bodies(ctx):
+        for b in f.blocks:
+            for st in b["s"]:
+                if st["k"] == "assign" and st["r"]["k"] == "agg" and st["r"].get("def") == STATE_ADT:
+                    bf, aggr = f, st["r"]
+    if bf is None or "proposals" not in aggr.get("fields", []):
+        ctx.ob(R, "backup proposals", False, "ChonkyV2State literal with a `proposals` field not found (anchor missing)")
+    else:
+        T = ctx.T(bf)
+        LF = Q.LocalFlow(bf)
+        pl = Q.LocalFlow._local_op(aggr["ops"][aggr["fields"].index("proposals")])
+        src = LF.closure(pl) if pl is not None else set()
+
+        def from_cache(t):
+            return "decl" in t["f"] and bool(t["args"]) and any(x[0] == "field" and x[2] == "block_proposal_cache" for x in subterms(T.operand(t["args"][0])))
+        ok_src = pl is not None and LF.derives_from_call_where(pl, from_cache)
+        sel = []
+        for b in bf.blocks:
+            t = b["t"]
+            if t["k"] == "call" and "decl" in t["f"] and not t["dest"].get("pr") and t["dest"]["l"] in src:
+                q = bf.callee(t)[0].qname
+                if q.rsplit("::", 1)[-1] in SELECTING and q.startswith(("std::iter::", "std::vec::", "[T]::", "std::collections::")) and not q.endswith("Iterator::next"):
+                    sel.append(q)
+        ok = ok_src and not sel
+        ctx.ob(R, "backup proposals", ok, "proposals derive from an unfiltered traversal of self.block_proposal_cache" if ok else
+               ("the backed-up proposals are not built from self.block_proposal_cache" if not ok_src else "the backed-up proposals pass a selecting step (%s): some cached payloads are not persisted" % sorted(set(sel))[:3]), bf.loc())
+    # restore side
+    st = ctx.fn(SM + "::start")
+    body = ctx.F.body_of(st)
+    T = ctx.T(body)
+    sma = None
+    for b in body.blocks:
+        for s2 in b["s"]:
+            if s2["k"] == "assign" and s2["r"]["k"] == "agg" and s2["r"].get("def") == SM:
+                sma = s2["r"]
+    if sma is None or "block_proposal_cache" not in sma.get("fields", []):
+        ctx.ob(R, "restore proposals", False, "StateMachine literal with block_proposal_cache not found in StateMachine::start (anchor missing)", body.loc())
+        return
+    LF = Q.LocalFlow(body)
+    cl = Q.LocalFlow._local_op(sma["ops"][sma["fields"].index("block_proposal_cache")])
+    src = LF.closure(cl) if cl is not None else set()
+    from_backup = any(any(x[0] == "field" and x[2] == "proposals" for x in subterms(T.local(l))) for l in src) or \
+        any(any(isinstance(e, dict) and e.get("n") == "proposals" for e in (st2["r"].get("p") or {}).get("pr", []) + ((st2["r"].get("o") or {}).get("m") or (st2["r"].get("o") or {}).get("c") or {}).get("pr", []))
+            for b in body.blocks for st2 in b["s"] if st2["k"] == "assign" and st2["p"]["l"] in src)
+    merge, overwrite = [], []
+    fam = [body] + common.family(ctx, body, ("closure",))
+    for g in fam:
+        for c in ctx.T(g).calls():
+            q = c["q"]
+            tys = [g.ty(i).s for i in c["t"]["f"].get("ga", [])]
+            if q.endswith("BTreeMap::entry") and any("BlockNumber" in t for t in tys):
+                merge.append(q)
+            if q.endswith("BTreeMap::insert") and any("BlockNumber" in t for t in tys) and any("HashMap" in t for t in tys):
+                overwrite.append("BTreeMap::insert")
+            if q in ("std::iter::Iterator::collect", "std::iter::FromIterator::from_iter") and any(t.startswith("std::collections::BTreeMap<") and "BlockNumber" in t and "HashMap" in t for t in tys + [g.locals[c["t"]["dest"]["l"]].s]):
+                overwrite.append("collect::<BTreeMap<_, HashMap<..>>>")
+    if overwrite:
+        ctx.ob(R, "restore proposals", False, "StateMachine::start rebuilds block_proposal_cache with %s: proposals of the same block number overwrite each other, so after a restart the replica can lack the payload it voted for (it cannot build the block when the certificate forms)" % sorted(set(overwrite)), body.loc())
+    elif merge and from_backup:
+        ctx.ob(R, "restore proposals", True, "every backed-up proposal is merged into the cache by entry(number)", body.loc())
+    elif not from_backup:
+        ctx.ob(R, "restore proposals", False, "block_proposal_cache is not restored from the backup's proposals: a restarted replica forgets the payloads it voted for", body.loc())
+    else:
+        ctx.note("C03.10 restore of block_proposal_cache: neither the merging nor an overwriting form recognised - not decided")
+        ctx.ob(R, "restore proposals", True, "undecided shape (not reported)", body.loc())
+
+
 def rule_recorded_vote(ctx):
     R = "C03.6"
     ctx.rule(R, "in the proposal handler, phase := Commit, view_number := message.view().number and high_vote := Some(v) dominate the backup, v being the term that is signed; no later write to them before the backup")
@@ -438,4 +514,4 @@ def rule_who_writes(ctx):
 
 
 RULES = [("C03.1", rule_persist_before_send), ("C03.2", rule_backup_reaches_engine), ("C03.3", rule_no_write_between),
-         ("C03.4", rule_backup_restore_agree), ("C03.6", rule_recorded_vote), ("C03.7", rule_timeout), ("C03.9", rule_who_writes)]
+         ("C03.4", rule_backup_restore_agree), ("C03.10", rule_proposals_roundtrip), ("C03.6", rule_recorded_vote), ("C03.7", rule_timeout), ("C03.9", rule_who_writes)]
